@@ -8,10 +8,19 @@ use crate::{
     },
     logging, utils, Error, Result,
 };
+#[cfg(not(sentinel_verif))]
 use lazy_static::lazy_static;
+#[cfg(sentinel_verif)]
+use sentinel_verif_rt::lazy_static;
+#[cfg(not(sentinel_verif))]
 use std::collections::{HashMap, HashSet};
+#[cfg(sentinel_verif)]
+use sentinel_verif_rt::collections::{HashMap, HashSet};
 use std::hash::Hash;
+#[cfg(not(sentinel_verif))]
 use std::sync::{Arc, Mutex, RwLock, Weak};
+#[cfg(sentinel_verif)]
+use sentinel_verif_rt::sync::{Arc, Mutex, RwLock, Weak};
 
 /// ControllerGenfn represents the Traffic Controller generator function of a specific control behavior.
 pub type ControllerGenfn =
